@@ -214,6 +214,18 @@ def r4_cursor(r, facts):
     forms = [loc for loc, t in f.calls() if (t.get('callee') or '') in ('std::ptr::slice_from_raw_parts', 'std::slice::from_raw_parts') and 'notify::Event' not in (t.get('callee_full') or '')]
     evref = [loc for loc, t in f.calls() if (t.get('callee') or '') == 'std::ptr::slice_from_raw_parts']
     r.require(bool(rpos), 'poll_sys/padding', 'name padding is not stripped with a last-non-NUL search', f.where())
+    # the search covers the whole name field (the kernel pads with 1..=16 NULs: the terminator plus alignment)
+    SUBSLICE = ('std::ops::Index::index', 'core::slice::<impl [T]>::get', 'core::slice::<impl [T]>::split_at', 'core::slice::<impl [T]>::split_at_checked',
+                'core::slice::<impl [T]>::last_chunk', 'core::slice::<impl [T]>::rchunks', 'core::slice::<impl [T]>::get_unchecked', 'std::iter::Iterator::take', 'std::iter::Iterator::skip')
+    for p in rpos:
+        t = f.at(p)
+        recv = ebp.operand(t['args'][0])
+        whole = [x for x in subexprs(recv) if x[0] == 'call' and x[1] == 'std::slice::from_raw_parts']
+        cut = [x for x in subexprs(recv) if x[0] == 'call' and x[1] in SUBSLICE]
+        r.inst('padding search over %s' % (str(recv)[:120],), f.where(p))
+        r.require(bool(whole) and not cut, 'poll_sys/padding-partial', 'the last-non-NUL search does not cover the whole name field (%s): a name followed by more padding than the searched part keeps NUL bytes (the kernel pads with 1 to 16 NULs)' % (cut[0][1] if cut else 'not the record bytes'), f.where(p))
+        for w in whole:
+            r.require(fam.last_field(w[2][1]) == 'len' or 'len' in str(w[2][1]), 'poll_sys/padding-partial', 'the name slice searched for padding is not event.len bytes long: %s' % (w[2][1],), f.where(p))
     for loc in evref:
         r.inst('event reference formed', f.where(loc))
         r.require(any(f.dominates(p, loc) for p in rpos), 'poll_sys/padding-order', 'the event reference is formed before the padding was measured', f.where(loc))
